@@ -57,6 +57,7 @@ pwrite64(int fd, const void* buf, size_t count, off_t off)
 #include <set>
 #include <sstream>
 #include <string>
+#include <cstddef>
 #include <sys/stat.h>
 #include <vector>
 
@@ -75,9 +76,12 @@ extern "C"
     {
         abort();
     }
-    enum DeviceStatusCode driver_close_device(struct Device*)
+    // what the drivers' close does for a storage device: destroy it (storage_close goes through this)
+    enum DeviceStatusCode driver_close_device(struct Device* d)
     {
-        abort();
+        struct Storage* s = (struct Storage*)((char*)d - offsetof(struct Storage, device));
+        s->destroy(s);
+        return Device_Ok;
     }
     const char* basic_device_kind_to_string(enum BasicDeviceKind)
     {
@@ -306,10 +310,8 @@ main(int argc, char** argv)
                 printf("illformed\n");
                 continue;
             }
-            // storage_close = storage_stop + driver close (= destroy); the
-            // HAL's write-after-close is C11's business, not repeated here.
-            storage_stop(g_dev);
-            g_dev->destroy(g_dev);
+            // the real storage_close: whatever state the device is in, the file has to end up finished and closed
+            storage_close(g_dev);
             g_dev = 0;
             printf("destroy\n");
         } else if (op == "append") {
